@@ -84,6 +84,12 @@ def make_async_device(raw):
     return dev, tr
 
 
+def _same_class_helper(code):
+    """methods of AdbDevice itself (not of the I/O manager or the transports) called from _open: id allocation helpers and the like"""
+    import adb_shell.adb_device as m
+    return code.co_filename == m.__file__ and getattr(code, "co_qualname", "").startswith("AdbDevice.")
+
+
 def gen_case(rng, nreaders=None):
     n = nreaders or rng.choice([2, 2, 3])
     readers = []
@@ -385,7 +391,7 @@ def c14_concurrent(ctx, only=None):
         dev._io_manager._transport_lock = sched.SchedLock(baton, "transport", no_yield_under=("transport",))
         dev._io_manager._store_lock = sched.SchedLock(baton, "store", no_yield_under=("transport",))
         ids = [None] * nthreads
-        tracer = sched.line_tracer(baton, {AdbDevice._open.__code__})
+        tracer = sched.line_tracer(baton, {AdbDevice._open.__code__}, follow=_same_class_helper)
 
         def worker(i):
             sys.settrace(tracer)
@@ -504,7 +510,7 @@ def conc_sessions(ctx, n=None, only=None):
                 baton.park(("io",))
                 return orig_w(d, t)
             link.bulk_read, link.bulk_write = br, bw
-            tracer = sched.line_tracer(baton, {AdbDevice._open.__code__}) if lines else None
+            tracer = sched.line_tracer(baton, {AdbDevice._open.__code__}, follow=_same_class_helper) if lines else None
 
             import io as _io
 
